@@ -170,6 +170,10 @@ func theBroker() *vkit.Broker {
 	return shared
 }
 
+// validFilter: everything the generator produces except the strings it lists as malformed (filters acquired through a
+// link's auto-subscribe come from the channel list).
+func validFilter(f string) bool { return !inList(badFilters, f) }
+
 func canRead(k string) bool  { return k == "rw" || k == "r" }
 func canWrite(k string) bool { return k == "rw" || k == "w" }
 
@@ -258,7 +262,7 @@ func run(c Case) (res vkit.Result) {
 			}
 			wantErrs := 0
 			for i, tp := range op.Topics {
-				ok := inList(goodFilters, tp.F) && canRead(tp.K)
+				ok := validFilter(tp.F) && canRead(tp.K)
 				if ok != (codes[i] != 0x80) {
 					return fail("step %d: subscribe %v: return code %#x, expected success=%v", step, tp, codes[i], ok)
 				}
@@ -286,7 +290,7 @@ func run(c Case) (res vkit.Result) {
 			}
 			wantErrs := 0
 			for _, tp := range op.Topics {
-				if inList(goodFilters, tp.F) && canRead(tp.K) {
+				if validFilter(tp.F) && canRead(tp.K) {
 					if m.subs[tp.F] {
 						effUnsub = true
 					}
